@@ -17,6 +17,9 @@ pub fn units(tier: &str, _seed: u64) -> Vec<String> {
         v.push(unit(&[("shape", s), ("n", "1"), ("fs", fs), ("k", "sym"), ("lm", "0")]));
     }
     v.push(unit(&[("shape", shapes[1].0), ("n", "1"), ("fs", "PEN"), ("k", "sym"), ("lm", "1")]));
+    // two services whose mix may differ from step to step, with surplus production at some steps: the service
+    // shares of step A and step B must be the same annual shares
+    v.push(unit(&[("shape", "U:CAL:ELECTRICIDAD;U:REF:ELECTRICIDAD;P:EL_INSITU"), ("n", "2"), ("fs", "PEN"), ("k", "sym"), ("lm", "0")]));
     if tier == "thorough" {
         for (s, fs) in shapes {
             v.push(unit(&[("shape", s), ("n", "2"), ("fs", fs), ("k", "sym"), ("lm", "0")]));
